@@ -172,11 +172,30 @@ class OptDomain(TagDomain):
   def method_call(self, recv, name, args, kwargs, node, st, eng):
     if name in ('ravel', 'flatten', 'reshape', 'copy'):
       return recv.d or EMPTY
+    if name == 'astype' and recv.origin and recv.origin[0] == 'prep':
+      # a cast to a floating dtype keeps the numbers (the validated data are
+      # floating point: c06b.validated_dtype; labels are exact in float64)
+      t = args[0] if args else kwargs.get('dtype')
+      floatish = t is not None and (
+          (t.fn and t.fn[0] == 'ext' and t.fn[1] in (
+              'builtins.float', 'numpy.float64')) or
+          t.const() in ('float', 'float64') or
+          (t.origin == ('dtype-of-prep',) and self._data_float()))
+      if floatish:
+        return recv
     return EMPTY
+
+  def _data_float(self):
+    if getattr(self, '_df', None) is None:
+      from . import c06b
+      self._df = c06b.validated_dtype(self.eng.repo)[0] == 'float'
+    return self._df
 
   def attr(self, v, name, node, st):
     if name == 'x':
       return v.d or EMPTY
+    if name == 'dtype' and v.origin and v.origin[0] == 'prep':
+      return V(EMPTY, origin=('dtype-of-prep',))
     return EMPTY
 
   def ext_call(self, dotted, args, kwargs, node, st, eng):
